@@ -73,6 +73,65 @@ def float_to_bits_exact(x: float, bits: int, ties: str = "even") -> typing.Optio
     return sign << (bits - 1) | biased << m | mant
 
 
+def fraction_to_bits(q: Fraction, bits: int, ties: str = "even") -> int:
+    """Exact rational -> IEEE bit pattern of the given width (round to nearest; overflow -> inf)."""
+    e, m = _F[bits]
+    bias = (1 << (e - 1)) - 1
+    sign = 1 if q < 0 else 0
+    q = abs(q)
+    if q == 0:
+        return 0
+    ex = q.numerator.bit_length() - q.denominator.bit_length()
+    while Fraction(2) ** ex > q:
+        ex -= 1
+    while Fraction(2) ** (ex + 1) <= q:
+        ex += 1
+    ex = max(ex, 1 - bias)
+    n = q / Fraction(2) ** (ex - m)
+    fl = n.numerator // n.denominator
+    rem = n - fl
+    if rem > Fraction(1, 2) or (rem == Fraction(1, 2) and (ties == "away" or fl & 1)):
+        fl += 1
+    if fl >= (1 << (m + 1)):
+        fl >>= 1
+        ex += 1
+    if fl < (1 << m):
+        biased, mant = 0, fl
+    else:
+        biased, mant = ex + bias, fl - (1 << m)
+    if biased >= (1 << e) - 1:
+        return sign << (bits - 1) | ((1 << e) - 1) << m
+    return sign << (bits - 1) | biased << m | mant
+
+
+def bits_to_fraction(b: int, bits: int) -> Fraction:
+    e, m = _F[bits]
+    bias = (1 << (e - 1)) - 1
+    sign = -1 if b >> (bits - 1) else 1
+    ex = (b >> m) & ((1 << e) - 1)
+    mant = b & ((1 << m) - 1)
+    if ex == (1 << e) - 1:
+        raise ValueError("inf/nan")
+    if ex == 0:
+        return sign * Fraction(mant) * Fraction(2) ** (1 - bias - m)
+    return sign * Fraction((1 << m) | mant) * Fraction(2) ** (ex - bias - m)
+
+
+def ulp_at(q: Fraction, bits: int) -> Fraction:
+    """Spacing of the format at the magnitude of q."""
+    e, m = _F[bits]
+    bias = (1 << (e - 1)) - 1
+    q = abs(q)
+    if q == 0:
+        return Fraction(2) ** (1 - bias - m)
+    ex = q.numerator.bit_length() - q.denominator.bit_length()
+    while Fraction(2) ** ex > q:
+        ex -= 1
+    while Fraction(2) ** (ex + 1) <= q:
+        ex += 1
+    return Fraction(2) ** (max(ex, 1 - bias) - m)
+
+
 def bits_to_float(b: int, bits: int) -> float:
     if bits == 16:
         return struct.unpack("<e", struct.pack("<H", b))[0]
